@@ -45,6 +45,10 @@ func (m RelativeObjectMap) Insert(parent v1.Object, obj *unstructured.Unstructur
 // InsertAll inserts given slice of objects to RelativeObjectMap regarding parent
 func (m RelativeObjectMap) InsertAll(parent v1.Object, objects []*unstructured.Unstructured) {
 	for _, object := range objects {
+		if object == nil {
+			// a null entry (e.g. `"children": [null]` in a hook response) carries nothing to insert
+			continue
+		}
 		m.Insert(parent, object)
 	}
 }
